@@ -170,6 +170,9 @@ class API:
     def only_raises(self, out, allowed, label=""):
         """raises(only=allowed): an exit by any other exception must be infeasible."""
         if out.raised and not isinstance(out.exc, allowed):
+            if isinstance(out.exc, (AttributeError, TypeError)) and _on_proxy(out.exc):
+                # a method / operation the proxy type does not model: an engine limit, not the code's exception
+                raise core.Unsupported("proxy does not model: %s" % (str(out.exc)[:120],))
             if isinstance(out.exc, AttributeError) and _missing_init_field(out.exc):
                 # the object under test was built by the unit without running __init__, and the code now reads a field
                 # that __init__ establishes (e.g. one added by an edit): the harness is out of date, the code is not at fault
@@ -195,6 +198,15 @@ class API:
         """True when finding `fid` is listed as status=known (witness class is then excluded by
         the unit with an extra precondition)."""
         return fid in getattr(self, "known_ids", ())
+
+
+def _on_proxy(exc):
+    from .proxies import Proxy
+    obj = getattr(exc, "obj", None)
+    if isinstance(obj, Proxy):
+        return True
+    msg = str(exc)
+    return isinstance(exc, AttributeError) and any(("'%s' object has no attribute" % n) in msg for n in ("SStr", "SInt", "SBool", "SReal", "SSeq", "SDict", "SFut"))
 
 
 def _missing_init_field(exc):
